@@ -3,6 +3,7 @@ import sys
 
 import common as c
 import evalstream as es
+import c13_bindcb as bindcb
 
 PID = "C13"
 MANIFEST = {
@@ -163,6 +164,8 @@ def main(argv):
         import json
         rp = json.load(open(replay))
         print(json.dumps(rp, indent=1))
+        if rp.get("family") == "binding-callback":
+            return bindcb.replay(h, rp)
         if rp.get("left") and rp.get("right"):
             o = es.rust_eval(h, [rp["defs"] + rp["left"], rp["defs"] + rp["right"]])
             print("implementation now returns:", last(o[0]), "vs", last(o[1]))
@@ -273,6 +276,8 @@ def main(argv):
     res.coverage["samples"] = [{"left": pairs[i][1] + pairs[i][2], "right": pairs[i][1] + pairs[i][3],
                                 "impl": [last(rust[2 * i]), last(rust[2 * i + 1])]} for i in (0, 57, len(pairs) - 1)]
     res.coverage["traces_validated_against_impl"] = agree
+    # callbacks whose body binds names of its own, in every presentation / context (checks/c13_bindcb.py)
+    res.coverage["evaluations"] += bindcb.run(res, h, tier, seed, known, last)
     for e in known:
         if e["id"] == "F23":
             res.known("F23 %s%s" % (e["what"], "" if f23 else " (no longer reproduces)"))
